@@ -122,6 +122,10 @@ class ExecGen:
     def fn_ref(self, scope):
         """An expression whose value is (usually) a script function."""
         r = self.rng
+        if self.k.get('host_callbacks') and r.random() < self.k['host_callbacks']:
+            name = r.choice(['hostTick', 'hostObserve', 'hostTick'])
+            self.used_hosts.add(name)
+            return var(name)
         names = self.callable_names(scope)
         if not names:
             return var('null')
@@ -163,6 +167,9 @@ class ExecGen:
             return call('systemPartial', var(r.choice(names)), *self.call_args(scope)[:2] or [num(1)])
         # data expressions: rows are objects built by objectNew is outside the RefVM library; rows come from globals
         fname = r.choice(names)
+        if self.k.get('host_callbacks') and r.random() < self.k['host_callbacks']:
+            fname = 'hostTick'
+            self.used_hosts.add(fname)
         text = f'{fname}(ra, rb)' if r.random() < 0.5 else f'{fname}(ra)'
         args = [var('ra'), var('rb')] if ', rb' in text else [var('ra')]
         self.exprs[text] = call(fname, *args)
